@@ -247,15 +247,22 @@ def c19(chk, thorough):
         'straight lines (SP.lines), and that the evaluator reads the table as a + b t + c t^2 + d t^3 of the piece whose own range '
         'guard holds (SP.eval, SP.lookup). (AR) trapezoid area: each term is the exact integral of its segment and the area is a plain '
         'sum over all consecutive segments (hence additive). NOT decided: floating-point rounding (conditioning at extreme spacings), '
-        'behaviour for non-increasing abscissae, everything about the simplex minimiser.')
+        'behaviour for non-increasing abscissae. (NM) simplex minimiser, by a pairing typestate over the simplex table: every value stored '
+        'in a row is the objective at that row\'s coordinates (NM.pairing), the value returned and the point copied to `best` are row 0 of '
+        'an ascending whole-row sort of a fully evaluated table (NM.report, NM.sort), and between sorts only the worst row is replaced or '
+        'rows >= 1 shrunk, so the best vertex is never overwritten and the best value never increases from the initial simplex on '
+        '(NM.monotone; deterministic objective). NOT decided: convergence on convex quadratics.')
     chk.assumptions = ['seeds: column 0 of xy/interp_xy and the abscissa vector are X, column 1 and the predicted vector are Y',
                        'a numeric literal is dimensionless when added/compared, imposes nothing when stored or used as a factor; 0 is polymorphic',
                        'trusted mathematics: the Thomas algorithm solves the tridiagonal system whose rows it eliminates; a polynomial identity '
                        'in a symbolic index holds at every index; real (not floating-point) arithmetic']
-    prog = load_program(chk, ['interpolate.c', 'numeric.c'])
+    prog = load_program(chk, ['interpolate.c', 'numeric.c', 'optimization.c', 'matrix.c'])
     an = dims.run(chk, prog)
-    from . import spline
+    from . import spline, simplex
     spline.run(chk, prog)
+    simplex.run(chk, prog)
+    for r_, fl in (('NM.pairing', 10), ('NM.report', 1), ('NM.monotone', 8), ('NM.sort', 1)):
+        chk.floor(r_, fl)
     for r_, fl in (('SP.sweep', 2), ('SP.backsub', 2), ('SP.order', 5), ('SP.defined', 15), ('SP.natural', 4), ('SP.c0', 2), ('SP.c2', 1),
                    ('SP.c1', 1), ('SP.lines', 2), ('SP.eval', 3), ('SP.lookup', 1), ('AR.trapezoid', 1), ('AR.sum', 1)):
         chk.floor(r_, fl)
